@@ -31,8 +31,8 @@ ASSUMPTIONS = ["CPython ast; __slots__ prevents other attributes", "IR assignmen
 def run(ck):
     m = ck.repo.mod(IR)
     meths = m.methods("AssignBlock")
-    ck.rule("R1", "AssignBlock._assigns has one guarded writer; widths equal and destination ExprId/ExprMem on every path to it", floor=8)
-    ck.rule("R2", "a second IRDst in a block is refused; a missing one is completed before the block enters the graph", floor=5)
+    ck.rule("R1", "AssignBlock._assigns has one guarded writer; widths equal and destination ExprId/ExprMem on every path to it", floor=5)
+    ck.rule("R2", "a second IRDst in a block is refused; a missing one is completed before the block enters the graph", floor=2)
     ck.rule("R3", "an edge is added for every location/constant leaf of the tracked destination", floor=3)
     _mode_register_rules(ck)
     _width_rules(ck)
@@ -159,17 +159,52 @@ def run(ck):
     _complete_dst_rule(ck, m, fn)
 
     # ---------------------------------------------------------------- R3
-    fn = m.func("IRCFG.add_irblock")
+    from sa.prenorm import normalise_function
+    from sa import symval as _sv
+    import re as _re
+    fn = normalise_function(m.func("IRCFG.add_irblock"))
+    blkp = fn.args.args[1].arg
     loops = [n for n in walk_body(fn) if isinstance(n, ast.For) and "self.dst_trackback(" in norm(n.iter)]
-    ok = False
-    if loops:
-        body = ast.Module(body=loops[0].body, type_ignores=[])
-        t = norm(body)
-        ok = "is_int()" in t and "get_or_create_offset_location(int(dst))" in t and "is_loc()" in t and \
-            any(isinstance(c, ast.Call) and dotted(c.func) in ("self.add_uniq_edge", "self.add_edge") and
-                [norm(a) for a in c.args] == ["irblock.loc_key", "dst.loc_key"] for c in walk_local(body))
-    ck.ob("R3", "IRCFG.add_irblock:edges", ok, m.where(fn), "not every location/constant destination becomes an edge from the block")
-    ok = any(isinstance(n, ast.Assign) and norm(n.targets[0]) == "self.blocks[irblock.loc_key]" for n in walk_body(fn))
+    ok_loc = ok_int = False
+    src_ok = True
+    seen = []
+    if loops and isinstance(loops[0].target, ast.Name):
+        d = loops[0].target.id
+
+        def decide(t):
+            # a freshly built ExprLoc is a location, not an integer
+            if isinstance(t, ast.Call) and isinstance(t.func, ast.Attribute) and isinstance(t.func.value, ast.Call) and \
+                    (dotted(t.func.value.func) or "").split(".")[-1] == "ExprLoc":
+                return {"is_loc": True, "is_int": False, "is_mem": False, "is_id": False}.get(t.func.attr)
+            return None
+
+        def target_of(e):
+            t = norm(e).replace("m2_expr.", "")
+            mm = _re.match(r"^ExprLoc\((.*), [^,]*\)\.loc_key$", t)
+            return mm.group(1) if mm else t
+        for pth in _sv.paths(loops[0].body, decide=decide, limit=64):
+            kinds = {}
+            for t, b in pth.conds:
+                if isinstance(t, ast.Call) and isinstance(t.func, ast.Attribute) and norm(t.func.value) == d and t.func.attr in ("is_loc", "is_int"):
+                    kinds[t.func.attr] = b
+            edges = [c for c in pth.effects if isinstance(c, ast.Call) and dotted(c.func) in ("self.add_uniq_edge", "self.add_edge") and len(c.args) >= 2]
+            tg = [target_of(c.args[1]) for c in edges]
+            seen.append("%s -> %s" % (sorted(kinds.items()), tg))
+            if any(norm(c.args[0]) != "%s.loc_key" % blkp for c in edges):
+                src_ok = False
+            if kinds.get("is_int") is True and "self.loc_db.get_or_create_offset_location(int(%s))" % d in tg:
+                ok_int = True
+            if kinds.get("is_loc") is True and kinds.get("is_int") is not True and "%s.loc_key" % d in tg:
+                ok_loc = True
+            if kinds.get("is_int") is True and not edges:
+                ok_int = False
+                break
+            if kinds.get("is_loc") is True and kinds.get("is_int") is not True and not edges:
+                ok_loc = False
+                break
+    ck.ob("R3", "IRCFG.add_irblock:edges", ok_loc and ok_int and src_ok, m.where(fn),
+          "not every location / constant destination becomes an edge from the block (paths: %s)" % "; ".join(seen[:4]))
+    ok = any(isinstance(n, ast.Assign) and norm(n.targets[0]) == "self.blocks[%s.loc_key]" % blkp for n in walk_body(fn))
     ck.ob("R3", "IRCFG.add_irblock:register", ok, m.where(fn), "the block is not registered under its location")
     fn = m.func("IRCFG._extract_dst")
     _extract_dst_rules(ck, m, fn)
@@ -291,7 +326,7 @@ def _mode_register_rules(ck):
     the destination alone leaves foreign registers inside the pointer of a memory destination."""
     from sa.pathob import undischarged, path_text
     X86 = "miasm/arch/x86/sem.py"
-    ck.rule("R4", "every assignment of an x86 IR block has destination and source fully rewritten to the mode's registers before it is stored", floor=4)
+    ck.rule("R4", "every assignment of an x86 IR block has destination and source fully rewritten to the mode's registers before it is stored", floor=2)
     m = ck.repo.mod(IR)
     post = m.func("Lifter.post_add_asmblock_to_ircfg")
     cfg = CFG(post)
@@ -360,7 +395,7 @@ def _width_rules(ck):
     evaluated from regs.py, forking abstract interpretation, module helpers entered for their result) and reports a combination only
     when BOTH widths are known constants and differ."""
     from sa.widths import analyse_arch
-    ck.rule("R5", "no lifter function combines two expressions of known, different widths", floor=7)
+    ck.rule("R5", "no lifter function combines two expressions of known, different widths", floor=3)
     for arch in ("x86", "arm", "aarch64", "mips32", "ppc", "msp430", "mep"):
         rel = "miasm/arch/%s/sem.py" % arch
         if not ck.repo.exists(rel):
@@ -397,47 +432,22 @@ def _trackback_rules(ck, m, fn):
     ck.need(calls and isinstance(calls[0].targets[0], ast.Name), "IRCFG.dst_trackback: call of _extract_dst not found")
     out = calls[0].targets[0].id
     wl = norm(calls[0].value.args[0]) if calls[0].value.args else "?"
-    rebind = [st for st in lp.body if isinstance(st, ast.Assign) and norm(st.targets[0]) == wl and st is not calls[0]]
+    # the next worklist as a set of builder pieces (sa/setalg): comprehension, conditional element, accumulation loop, update with a
+    # difference of a set built the same way - all the same pieces
+    from sa.setalg import pieces_after
+    after = lp.body[lp.body.index(calls[0]) + 1:]
+    sets_ = pieces_after(after, out)
+    W = sets_.get(wl)
     follows = keeps = False
-    detail = "the worklist `%s` is not rebuilt from `%s` in the loop" % (wl, out)
-    if rebind:
-        v = rebind[-1].value
-        comp = v
-        if isinstance(comp, ast.Call) and norm(comp.func) in ("set", "frozenset") and len(comp.args) == 1:
-            comp = comp.args[0]
-        if isinstance(comp, (ast.SetComp, ast.GeneratorExp, ast.ListComp)) and len(comp.generators) == 1 and norm(comp.generators[0].iter) == out \
-                and not comp.generators[0].ifs and isinstance(comp.elt, ast.IfExp):
-            d = norm(comp.generators[0].target)
-            t, a, b = comp.elt.test, comp.elt.body, comp.elt.orelse
-            if norm(t) == "%s in %s" % (d, blk):
-                follows, keeps = norm(a) == "%s[%s]" % (blk, d), norm(b) == d
-            elif norm(t) == "%s not in %s" % (d, blk):
-                follows, keeps = norm(b) == "%s[%s]" % (blk, d), norm(a) == d
-            detail = "next worklist is {%s for %s in %s}" % (norm(comp.elt), d, out)
-        elif isinstance(v, ast.Name):
-            F = v.id
-            inner = [n for n in lp.body if isinstance(n, ast.For) and norm(n.iter) == out]
-            G = None
-            for il in inner:
-                d = norm(il.target)
-                for t in walk_local(ast.Module(body=il.body, type_ignores=[])):
-                    if isinstance(t, ast.If) and norm(t.test) == "%s in %s" % (d, blk):
-                        for c in walk_local(ast.Module(body=t.body, type_ignores=[])):
-                            ae = added_elements(c) if isinstance(c, ast.Call) else None
-                            if ae and ae[0] == F and [norm(x) for x in ae[1]] == ["%s[%s]" % (blk, d)]:
-                                follows = True
-                            if ae and ae[0] != F and [norm(x) for x in ae[1]] == [d]:
-                                G = ae[0]
-                        for c in walk_local(ast.Module(body=t.orelse, type_ignores=[])):
-                            ae = added_elements(c) if isinstance(c, ast.Call) else None
-                            if ae and ae[0] == F and [norm(x) for x in ae[1]] == [d]:
-                                keeps = True
-            for st in lp.body:
-                for c in walk_local(st):
-                    if isinstance(c, ast.Call) and isinstance(c.func, ast.Attribute) and c.func.attr == "update" and norm(c.func.value) == F and c.args and G:
-                        if norm(c.args[0]) in ("%s.difference(%s)" % (out, G), "%s - %s" % (out, G)):
-                            keeps = True
-            detail = "next worklist is `%s`, filled in a loop over `%s`" % (F, out)
+    detail = "the worklist `%s` is not rebuilt from `%s` in a way the rule understands" % (wl, out)
+    if W is not None:
+        got = set(W)
+        follows = ("%s[$d]" % blk, frozenset(["$d in %s" % blk])) in got
+        keeps = ("$d", frozenset(["$d not in %s" % blk])) in got
+        extra = got - set([("%s[$d]" % blk, frozenset(["$d in %s" % blk])), ("$d", frozenset(["$d not in %s" % blk]))])
+        detail = "next worklist = %s" % sorted("{%s : %s}" % (e, " and ".join(sorted(c)) or "all") for e, c in got)
+        if extra:
+            follows = follows and not any(e == "%s[$d]" % blk for e, _c in extra)
     ck.ob("R3", "IRCFG.dst_trackback:assigned-id-followed", follows, m.where(fn),
           "an identifier the assignment block assigns must be replaced by its source in the next worklist: %s" % detail)
     ck.ob("R3", "IRCFG.dst_trackback:unassigned-id-kept", keeps, m.where(fn),
